@@ -272,6 +272,16 @@ let parse_entry (e : string) : M.entry =
     in
     M.EEval (l, m, t)
 
+(* user functions that exist only in the two harnesses (closures, not constructors of Model.libfn):
+   `needfloat` answers like a function written with Value::as_float *)
+let custom_fn (spec : string) : (M.value -> M.value M.outcome) option =
+  match spec with
+  | "needfloat" -> Some (fun a -> match a with M.VFloat _ -> M.Ok a | _ -> M.Err (M.EExpectedFloat a))
+  | "neednumber" -> Some (fun a -> match a with M.VFloat _ | M.VInt _ -> M.Ok a | _ -> M.Err (M.EExpectedNumber a))
+  | _ -> None
+
+type xop = Plain of M.cop | SetCustom of M.str * (M.value -> M.value M.outcome)
+
 let parse_op (op : string) : M.cop =
   match split_on ' ' op with
   | [ "set"; x; v ] -> M.CSet (str_of_hex x, parse_value v)
@@ -319,6 +329,19 @@ let kind_of_text k =
    (Gen/Interface.v, run_entry_gen) instead of the projection specification (run_entry) *)
 let use_wrappers = (try Sys.getenv "EVX_WRAPPERS" = "1" with Not_found -> false)
 
+let parse_xop (op : string) : xop =
+  match split_on ' ' op with
+  | [ "setfn"; f; l ] ->
+      (match custom_fn l with Some g -> SetCustom (str_of_hex f, g) | None -> Plain (parse_op op))
+  | _ -> Plain (parse_op op)
+
+let step_custom (st : M.ctx * M.log) (f : M.str) (g : M.value -> M.value M.outcome) : (M.ctx * M.log) * M.cout =
+  let c, lg = st in
+  if M.has_store c then
+    let r = M.set_function (M.as_hashmap c) f g in
+    ((M.with_kind c.M.c_kind (M.ctx_or (M.as_hashmap c) r), lg), M.OUnit (M.unit_of r))
+  else (st, M.ONa)
+
 let step_wrapped (st : M.ctx * M.log) (op : M.cop) : (M.ctx * M.log) * M.cout =
   let c, lg = st in
   let mutable_kind = match c.M.c_kind with M.KHashMap | M.KNoStore -> true | _ -> false in
@@ -331,15 +354,21 @@ let step_wrapped (st : M.ctx * M.log) (op : M.cop) : (M.ctx * M.log) * M.cout =
         if m = M.MMut then (((if keep then c' else c), lg'), M.OVal r) else ((c', lg'), M.OVal r)
   | _ -> M.step oracle st op
 
-let run_script_wrapped st ops =
-  let st, outs = List.fold_left (fun (st, outs) op -> let st', o = step_wrapped st op in (st', o :: outs)) (st, []) ops in
+let run_script_stepwise st (ops : xop list) =
+  let one st op =
+    match op with
+    | SetCustom (f, g) -> step_custom st f g
+    | Plain op -> if use_wrappers then step_wrapped st op else M.step oracle st op in
+  let st, outs = List.fold_left (fun (st, outs) op -> let st', o = one st op in (st', o :: outs)) (st, []) ops in
   (st, List.rev outs)
 
 let run_script (kind : string) (ops : string) : string =
-  let ops = if ops = "" then [] else List.map parse_op (split_on ';' ops) in
+  let xops = if ops = "" then [] else List.map parse_xop (split_on ';' ops) in
+  let plain = List.for_all (function Plain _ -> true | _ -> false) xops in
   let (c, lg), outs =
-    if use_wrappers then run_script_wrapped (M.initial_ctx (kind_of_text kind), []) ops
-    else M.run_script oracle (M.initial_ctx (kind_of_text kind), []) ops in
+    if plain && not use_wrappers then
+      M.run_script oracle (M.initial_ctx (kind_of_text kind), []) (List.map (function Plain o -> o | _ -> assert false) xops)
+    else run_script_stepwise (M.initial_ctx (kind_of_text kind), []) xops in
   let outs = List.map cout_text outs in
   let log = List.map (fun (f, v) -> hex_of_str f ^ "(" ^ value_text v ^ ")") lg in
   Printf.sprintf "%s || %s LOG[%s]" (String.concat " | " outs) (ctx_text c) (String.concat "," log)
